@@ -41,7 +41,8 @@ class C13:
             "reads the target's current value as modified; on a retarget the delta is the current value (TS/TSB) or, for sets and dictionaries, exactly "
             "the difference between what the consumer held before and the new contents (removed within its previous value, added outside it; previous view + delta_value() = value; every live dictionary entry sampled as modified; key views and item views of the delta agree); a "
             "republished unchanged reference causes no evaluation; ticks of unselected targets never reach the consumer. non-trivial = >= 2 retargets; "
-            "distinct = distinct (shape, scripts)")
+            "distinct = distinct (shape, scripts)"
+            " Round 3: in 15% of the runs the two targets are elements 0 and 1 of one TSL<TSB,2> output (a retarget keeps the owning output).")
     assumptions = ["retarget to a never-valid target: only 'reads invalid if evaluated' is asserted (scalar unbind is documented as silent)",
                    "whether a target ticked in a cycle is taken from the target writer's own output view; values from the Python container model"]
 
